@@ -116,6 +116,10 @@ def run(ctx):
                 pic = lambda rid: X("w:drawing", {}, [X("wp:inline", {}, [X("a:graphic", {}, [X("a:graphicData", {}, [X("pic:pic", {}, [X("pic:blipFill", {}, [X("a:blip", {"r:embed": rid})])])])])])])
                 pkg.body = [X("w:p", {}, [X("w:r", {}, [X("w:t", {}, [XT("before")]), pic("rIdMiss" if rng.random() < 0.5 else "rIdAbs")])])]
                 named = True
+            if i in (4, 5):
+                # dedicated: a style map (embedded in the package) that is nothing but the NAME of a file which exists: it is a style map that cannot be
+                # read as one - never a reason to open that file
+                pkg.embedded_style_map = canary if i == 4 else "p => h1\n" + canary
             d = os.path.join(wd.path, "c%d" % i)
             os.makedirs(d)
             if missing_part:
